@@ -259,8 +259,7 @@ class M:
                         self.value.discard(o[1])
                         eff = True
                 elif o[0] == "clear":
-                    if self.value or self.valid:
-                        eff = True      # clear() of an already empty (valid) set is still a write: an empty tick
+                    eff = True      # clear() of an already empty (or never written) set is still a write: an empty tick
                     self.value.clear()
                 elif o[0] == "touch":
                     eff = True
@@ -280,10 +279,9 @@ class M:
                     if o[1] in self.value:
                         del self.value[o[1]]
                         self.erased_now.add(o[1])
-                        eff = True
+                    eff = True      # an erase that removes nothing is still a write: the dictionary ticks with an empty delta
                 elif o[0] == "clear":
-                    if self.value:
-                        eff = True
+                    eff = True      # also on an empty / never written dictionary (it becomes valid and empty)
                     self.erased_now |= set(self.value)
                     self.value.clear()
                 elif o[0] == "touch":
@@ -369,8 +367,9 @@ def gen_op(draw, m: M, t, opts):
         m.apply(op, t)
         return op
     if k == "TSS":
-        if opts.get("cancel", True) and m.valid and not m.value and draw(st.integers(0, 2)) == 0:
-            # clear() of a set that is already empty: a mutation call that changes nothing and must leave no trace
+        if opts.get("cancel", True) and not m.value and draw(st.integers(0, 2)) == 0:
+            # clear() of a set that is already empty (or was never written): a mutation call that changes nothing; it is an
+            # empty tick (the set becomes valid) and must leave no trace in the delta
             op = {"k": "S", "ops": [["clear"]]}
             m.apply(op, t)
             return op
@@ -452,6 +451,12 @@ def gen_op(draw, m: M, t, opts):
             m.mark(t)
             return ["at", key, tmp_op]
 
+        if opts.get("cancel", True) and not grow and draw(st.integers(0, 9 if m.value else 4)) == 0:
+            # a mutation call that removes nothing - clear() of an empty (or never written) dictionary, erase of an absent key:
+            # the dictionary ticks with an empty delta and, as a first write, becomes valid (its key set too)
+            o = ["clear"] if not m.value and draw(st.booleans()) else ["erase", next(x for x in range(50, 100000) if x not in m.value and x not in m.erased_now)]
+            m.apply({"k": "D", "ops": [o]}, t)
+            return {"k": "D", "ops": [o]}
         for _ in range(n):
             live = sorted(m.value)
             choices = ["new", "new", "update", "update", "erase", "erase"] + (["set_erase", "set_erase", "clear", "erase_set"] + (["set_erase_set"] if draw(st.integers(0, 3)) == 0 else []) if opts.get("cancel", True) else [])
